@@ -8,6 +8,7 @@ from typing import Any, Dict, List, Optional
 
 from aas_core_codegen.common import Stripped
 from aas_core_codegen.cpp import description as cpp_description
+from aas_core_codegen.csharp import description as csharp_description
 from aas_core_codegen.golang import description as golang_description
 from aas_core_codegen.java import description as java_description
 from aas_core_codegen.python import description as python_description
@@ -98,7 +99,133 @@ def lex_block_comment(cps: List[Any]) -> Optional[str]:
     return "never-closes"
 
 
+# ---- C#: documentation comments are XML ------------------------------------------------------------------------------
+LT, GT, AMP, SEMI, RBRACKET = 60, 62, 38, 59, 93
+CS_TAGS = ["<summary>", "</summary>", "<remarks>", "</remarks>", "<para>", "</para>", "<c>", "</c>", "<em>", "</em>", "<li>", "</li>",
+           "<ul>", "</ul>"]
+XML_ENTITIES = ["amp;", "lt;", "gt;", "quot;", "apos;"]
+CS_SHAPES = ["summary-text", "summary-code", "remarks-text"]
+
+
+class _FakeDescription:
+    """What csharp.description._render_summary_remarks reads of a description; the 'docutils elements' are already our nodes."""
+
+    def __init__(self, summary: Any, remarks: List[Any]) -> None:
+        self.summary, self.remarks = summary, remarks
+        self.parsed = type("Parsed", (), {"node": None})()
+
+
+def csharp_comment(shape: str, text: Any) -> Any:
+    """The REAL _generate_summary_remarks (compression, indention, escaping, '///' lines) on a node tree holding ``text``; only
+    the docutils visitor in front of it (_ElementRenderer.transform, which needs docutils nodes = concrete strings) is stubbed."""
+    d = csharp_description
+    text_node = d._Text(text)
+    if shape == "summary-text":
+        desc = _FakeDescription(d._List(items=[d._Text("See "), text_node]), [])
+    elif shape == "summary-code":
+        desc = _FakeDescription(d._List(items=[d._Text("See "), d._Element(name="c", children=d._List(items=[text_node])),
+                                               d._Text(".")]), [])
+    else:
+        desc = _FakeDescription(d._Text("S"), [d._Element(name="para", children=d._List(items=[text_node])),
+                                               d._Element(name="para", children=d._List(items=[d._Text("M")]))])
+    original = d._ElementRenderer.transform
+    d._ElementRenderer.transform = lambda self, element: (element, None)  # type: ignore
+    try:
+        code, errors = d._generate_summary_remarks(desc)  # type: ignore
+    finally:
+        d._ElementRenderer.transform = original  # type: ignore
+    if errors is not None or code is None:
+        fail("csharp.documentation-comment:errors-for-plain-text", "%r", errors)
+    return code
+
+
+def _is_xml_char(c: Any) -> Any:
+    return (c == 9) | (c == 10) | (c == 13) | ((c >= 0x20) & (c <= 0xD7FF)) | ((c >= 0xE000) & (c <= 0xFFFD)) | (c >= 0x10000)
+
+
+def lex_csharp_xml_comment(cps: List[Any]) -> Optional[str]:
+    """None if ``cps`` is a block of '///' lines whose content is a well-formed XML fragment over the known tags."""
+    lines: List[List[Any]] = [[]]
+    for c in cps:
+        if c == NL:
+            lines.append([])
+        else:
+            lines[-1].append(c)
+    content: List[Any] = []
+    for line in lines:
+        if len(line) < 3 or not (line[0] == SLASH and line[1] == SLASH and line[2] == SLASH):
+            return "line-outside-the-comment"
+        for c in line:
+            if c == CR or c == 0x85 or c == 0x2028 or c == 0x2029:
+                return "line-terminator-inside-a-line"
+        content.extend(line[3:])
+        content.append(NL)
+    n = len(content)
+    stack: List[str] = []
+    i = 0
+    while i < n:
+        c = content[i]
+        if c == LT:
+            matched = None
+            for tag in CS_TAGS:
+                if i + len(tag) <= n:
+                    same = True
+                    for k, ch in enumerate(tag):
+                        if not (content[i + k] == ord(ch)):
+                            same = False
+                            break
+                    if same:
+                        matched = tag
+                        break
+            if matched is None:
+                return "markup-which-the-generator-did-not-write"
+            if matched.startswith("</"):
+                if len(stack) == 0 or stack[-1] != matched[2:-1]:
+                    return "unbalanced-tags"
+                stack.pop()
+            else:
+                stack.append(matched[1:-1])
+            i += len(matched)
+            continue
+        if c == AMP:
+            matched_entity = None
+            for entity in XML_ENTITIES:
+                if i + 1 + len(entity) <= n:
+                    same = True
+                    for k, ch in enumerate(entity):
+                        if not (content[i + 1 + k] == ord(ch)):
+                            same = False
+                            break
+                    if same:
+                        matched_entity = entity
+                        break
+            if matched_entity is None:
+                return "ampersand-which-starts-no-entity"
+            i += 1 + len(matched_entity)
+            continue
+        if c == GT and i >= 2 and content[i - 1] == RBRACKET and content[i - 2] == RBRACKET:
+            return "cdata-end-marker-in-character-data"
+        if not _is_xml_char(c):
+            return "character-which-xml-cannot-contain"
+        i += 1
+    if len(stack) != 0:
+        return "unbalanced-tags"
+    return None
+
+
+def check_csharp(shape: str, text: Any) -> str:
+    for c in codepoints(text):
+        assume(c != 0)
+    out = csharp_comment(shape, text)
+    problem = lex_csharp_xml_comment(codepoints(out))
+    if problem is not None:
+        fail(f"csharp.documentation-comment:{problem}", "text %r in %s -> %r", text, shape, out)
+    return "ok"
+
+
 def check(wrapper: str, text: Any) -> str:
+    if wrapper.startswith("csharp:"):
+        return check_csharp(wrapper[len("csharp:"):], text)
     # Stripped: no leading/trailing blank, tab, newline (precondition of the wrappers' argument type)
     cps_in = codepoints(text)
     if len(cps_in) > 0:
@@ -141,6 +268,19 @@ def shards(tier: str) -> List[Dict[str, Any]]:
             out.append({"name": f"{wrapper},len={n}", "params": {"wrapper": wrapper, "len": n},
                         "budget_s": 200 if tier == "quick" else 2400, "per_path_timeout": 60,
                         **({"exploratory": True} if n > (3 if tier == "quick" else 5) else {})})
+    # C#: the XML lexer costs more solver queries per character; exhaustive for length <= 2 (3), one more budgeted
+    for shape in CS_SHAPES:
+        for n in range(1, (3 if tier == "quick" else 4) + 1):
+            deep = n > (2 if tier == "quick" else 3)
+            if shape == "remarks-text":
+                # the new-line enforcement between block elements forks on every character: explored under a budget only
+                if n > (1 if tier == "quick" else 2):
+                    continue
+                deep = True
+            out.append({"name": f"csharp:{shape},len={n}", "params": {"wrapper": "csharp:" + shape, "len": n},
+                        "budget_s": (80 if deep else 300) if tier == "quick" else 2400, "per_path_timeout": 60,
+                        **({"exploratory": True} if deep else {})})
+    out.sort(key=lambda shard: -shard["budget_s"] if not shard.get("exploratory") else 0)
     return out
 
 
@@ -148,6 +288,16 @@ def public_replay(params: Dict[str, Any], kwargs: Dict[str, Any]) -> Optional[st
     """The emitted comment / docstring in front of a declaration, given to the real language tool where one is installed."""
     wrapper = params["wrapper"]
     text = kwargs["text"]
+    if wrapper.startswith("csharp:"):
+        out = csharp_comment(wrapper[len("csharp:"):], text)
+        content = "\n".join(line[3:] for line in out.split("\n"))
+        import xml.parsers.expat
+        parser = xml.parsers.expat.ParserCreate()
+        try:
+            parser.Parse("<doc>" + content + "</doc>", True)
+            return "expat: well-formed"
+        except (xml.parsers.expat.ExpatError, ValueError, UnicodeEncodeError) as e:
+            return f"expat: {e}"
     out = WRAPPERS[wrapper](Stripped(text))
     with tempfile.TemporaryDirectory() as tmp:
         if wrapper.startswith("python."):
@@ -183,15 +333,22 @@ def describe(tier: str) -> Dict[str, Any]:
                       "aas_core_codegen.java.description.documentation_comment",
                       "aas_core_codegen.typescript.description.documentation_comment",
                       "aas_core_codegen.cpp.description.documentation_comment",
-                      "aas_core_codegen.golang.description.documentation_comment"],
+                      "aas_core_codegen.golang.description.documentation_comment",
+                      "aas_core_codegen.csharp.description._generate_summary_remarks", "aas_core_codegen.csharp.description._render_summary_remarks",
+                      "aas_core_codegen.csharp.description._compress_node_in_place", "aas_core_codegen.csharp.description._to_text",
+                      "aas_core_codegen.csharp.description._ToTextDirectivesVisitor"],
         "bounds": f"text: symbolic Stripped string over all of Unicode (no NUL), exhaustively for length <= {3 if tier == 'quick' else 5}, "
                   f"budgeted exploration for length {max(x['params']['len'] for x in s)}; per wrapper a lexer of the target language's "
-                  "comment / triple-quoted-string syntax decides whether the output is exactly ONE comment block / docstring",
+                  "comment / triple-quoted-string syntax decides whether the output is exactly ONE comment block / docstring. C#: the real "
+                  "_generate_summary_remarks on node trees (text in the summary, inside <c>, inside a remarks paragraph) holding a symbolic "
+                  f"text of length <= {2 if tier == 'quick' else 3} (one more budgeted; the remarks shape only budgeted): every line is a '///' line without a C# line terminator "
+                  "and the content is a well-formed XML fragment (known tags balanced, no raw '<', every '&' starts a predefined entity, "
+                  "no ']]>', only XML characters)",
         "outside": "whole generated files (the property's 'every generated file parses'): only the wrappers through which description text "
                    "reaches the files are decided; the rendering of reST elements before the wrapper (docutils realizes symbolic text); "
-                   "C# XML documentation; string literals are C19",
-        "stubs": [],
-        "assumptions": ["the argument satisfies Stripped's precondition; no NUL",
+                   "C#: attribute values (cref names come from the naming functions, not from description text); string literals are C19",
+        "stubs": ["C#: csharp.description._ElementRenderer.transform (the docutils visitor) hands over a prepared node tree"],
+        "assumptions": ["the argument satisfies Stripped's precondition (C#: any text); no NUL",
                         "C++: a comment line ending in a backslash splices the following line into the comment (translation phase 2)"],
         "rule": "one shard per wrapper and text length; witnesses are replayed through compile() / g++ -fsyntax-only / node --check / javac",
     }
